@@ -236,7 +236,15 @@ var stressSizes = []int{3, 41, 42, 43, 44, 100, 255, 256, 257, 600}
 func eachStress(extraSizes []int) func(yield func(*StressCase) bool) {
 	return func(yield func(*StressCase) bool) {
 		for _, k := range gen.StressKinds {
-			for _, n := range append(append([]int(nil), stressSizes...), extraSizes...) {
+			sizes := append([]int(nil), stressSizes...)
+			for _, n := range extraSizes {
+				// the capacity classes (tens of thousands of members) only make sense for
+				// wide literals; deep nests of that size would only measure recursion depth
+				if strings.HasPrefix(k, "wide") || n <= 2000 {
+					sizes = append(sizes, n)
+				}
+			}
+			for _, n := range sizes {
 				for _, sel := range []bool{false, true} {
 					if k != "long-arms" && sel {
 						continue
